@@ -5,7 +5,7 @@ Import ListNotations.
 Open Scope string_scope.
 Open Scope list_scope.
 
-Local Opaque fnm.
+Local Opaque fnm dec.
 
 (* ---------------------------------------------------------------- induction on documents *)
 Section JInd.
@@ -989,3 +989,293 @@ Section Frag.
     intros pat' H'. apply Hl. right. exact H'.
   Qed.
 End Frag.
+
+(* ---------------------------------------------------------------- main statements *)
+
+Lemma wf_C13_parts acl old f :
+  wf_C13 acl old f = true ->
+  uniq old = true /\ uniq f = true /\ same_schema old f = true /\
+  (forall pat, In pat acl -> objects_only pat old = true /\ objects_only pat f = true /\ pat <> []).
+Proof.
+  unfold wf_C13, wf_frag. intro H.
+  apply andb_true_iff in H as [H H4]. apply andb_true_iff in H as [H H3].
+  apply andb_true_iff in H as [H1 H2]. apply andb_true_iff in H3 as [H3 H5].
+  repeat split; try assumption.
+  - rewrite forallb_forall in H5. apply H5 in H. apply andb_true_iff in H. tauto.
+  - rewrite forallb_forall in H5. apply H5 in H. apply andb_true_iff in H. tauto.
+  - rewrite forallb_forall in H4. apply H4 in H. intro E. subst pat. discriminate.
+Qed.
+
+Theorem fragment_main acl pats old f :
+  parse_acl acl = Some pats -> wf_C13 pats old f = true ->
+  exists r,
+    apply_fragment V_fixed old f acl = Some r /\
+    (forall p, restrict pats r p = restrict pats f p) /\
+    (forall p, outside pats r p = outside pats old p) /\
+    apply_fragment V_fixed r f acl = Some r /\ uniq r = true.
+Proof.
+  intros Hp Hwf. apply wf_C13_parts in Hwf as [Huo [Huf [Hss Hpat]]].
+  assert (Hof : forall pat, In pat pats -> objects_only pat f = true) by (intros pat H; apply Hpat; exact H).
+  assert (HI : Inv f pats old).
+  { split; [exact Huo|]. split; [exact Hss|]. intros pat H. apply Hpat. exact H. }
+  destruct (fold_ok f pats Huf Hof pats old HI) as [r [E [HIr [_ [HA HO]]]]].
+  { intros pat H. split; [exact H | apply Hpat; exact H]. }
+  exists r. unfold apply_fragment. rewrite !(apply_fragment_fixed f acl pats _ Hp).
+  split; [exact E|]. split; [|split].
+  - intro p. unfold restrict, selected. destruct (existsb (fun pat => pmatch pat p) pats) eqn:Es; [|reflexivity].
+    apply existsb_exists in Es as [pat [Hin Hm]]. exact (HA pat p Hin Hm).
+  - intro p. unfold outside. destruct (inside pats p) eqn:Ei; [reflexivity|]. apply HO. exact Ei.
+  - split; [|apply HIr]. apply (fold_id f pats Huf Hof r pats HIr).
+    intros pat H. split; [exact H|]. split; [apply Hpat; exact H|]. intros p Hm. exact (HA pat p H Hm).
+Qed.
+
+(* ---------------------------------------------------------------- jeq, subdoc, apply_acl_filters *)
+
+Fixpoint jeq_list (x y : list json) : bool :=
+  match x, y with
+  | [], [] => true
+  | a :: x', b :: y' => jeq a b && jeq_list x' y'
+  | _, _ => false
+  end.
+
+Fixpoint jeq_members (x y : list (string * json)) : bool :=
+  match x with
+  | [] => true
+  | (k, v) :: x' => match lookup k y with Some w => jeq v w | None => false end && jeq_members x' y
+  end.
+
+Lemma jeq_arr x : forall y, jeq (JArr x) (JArr y) = jeq_list x y.
+Proof.
+  induction x as [|a x IH]; intros [|b y]; try reflexivity.
+Qed.
+
+Lemma jeq_obj x y : jeq (JObj x) (JObj y) = Nat.eqb (List.length x) (List.length y) && jeq_members x y.
+Proof.
+  cbn [jeq]. f_equal. induction x as [|[k v] t IH]; [reflexivity|].
+  cbn [jeq_members]. rewrite <- IH. reflexivity.
+Qed.
+
+Lemma jeq_members_intro x y :
+  (forall k v, In (k, v) x -> lookup k y = Some v /\ jeq v v = true) -> jeq_members x y = true.
+Proof.
+  induction x as [|[k v] t IH]; intro H; [reflexivity|]. cbn.
+  destruct (H k v (or_introl eq_refl)) as [E1 E2]. rewrite E1, E2. cbn. apply IH.
+  intros k' v' Hin. apply H. right. exact Hin.
+Qed.
+
+Lemma jeq_members_elim x y :
+  jeq_members x y = true -> forall k v, In (k, v) x -> exists w, lookup k y = Some w /\ jeq v w = true.
+Proof.
+  induction x as [|[k0 v0] t IH]; intros H k v Hin; [destruct Hin|]. cbn in H.
+  apply andb_true_iff in H as [H1 H2]. destruct Hin as [E|Hin].
+  - injection E as E1 E2. subst. destruct (lookup k y) as [w|]; [|discriminate]. exists w. split; [reflexivity | exact H1].
+  - eapply IH; eassumption.
+Qed.
+
+Lemma uniq_arr_In l : uniq (JArr l) = true -> forall c, In c l -> uniq c = true.
+Proof.
+  induction l as [|x t IH]; intros Hu c Hin; [destruct Hin|].
+  rewrite uniq_arr_cons in Hu. apply andb_true_iff in Hu as [H1 H2].
+  destruct Hin as [<-|Hin]; [exact H1 | apply IH; assumption].
+Qed.
+
+Lemma jeq_refl : forall a, uniq a = true -> jeq a a = true.
+Proof.
+  apply (json_ind2 (fun a => uniq a = true -> jeq a a = true)).
+  - reflexivity.
+  - intros b _. cbn. apply Bool.eqb_reflx.
+  - intros z _. cbn. apply Z.eqb_refl.
+  - intros s _. cbn. apply String.eqb_refl.
+  - intros l IH Hu. rewrite jeq_arr. induction l as [|x t IHt]; [reflexivity|].
+    inversion IH as [|? ? Hx Ht]; subst. rewrite uniq_arr_cons in Hu. apply andb_true_iff in Hu as [H1 H2].
+    cbn. rewrite (Hx H1). cbn. apply IHt; assumption.
+  - intros kvs IH Hu. rewrite jeq_obj, Nat.eqb_refl. cbn. apply jeq_members_intro.
+    intros k v Hin. split; [apply uniq_obj_lookup; assumption|].
+    rewrite Forall_forall in IH. apply (IH (k, v) Hin). eapply uniq_obj_In; eassumption.
+Qed.
+
+Lemma indexed_In k c l : forall i, lookup k (indexed i l) = Some c -> In c l.
+Proof.
+  induction l as [|x t IH]; intros i H; cbn [indexed lookup] in H; [discriminate|].
+  destruct (String.eqb k (dec i)); [injection H as H; left; exact H | right; eapply IH; exact H].
+Qed.
+
+Lemma uniq_child k d c : uniq d = true -> lookup k (children d) = Some c -> uniq c = true.
+Proof.
+  intros Hu H. destruct d; cbn in H; try discriminate.
+  - eapply uniq_arr_In; [exact Hu | eapply indexed_In; exact H].
+  - eapply uniq_obj_In; [exact Hu | apply lookup_In; exact H].
+Qed.
+
+Lemma uniq_get p : forall d v, uniq d = true -> get p d = Some v -> uniq v = true.
+Proof.
+  induction p as [|k p IH]; intros d v Hu H; cbn in H.
+  - injection H as H. subst. exact Hu.
+  - destruct (lookup k (children d)) as [c|] eqn:E; [|discriminate]. cbn in H.
+    eapply IH; [eapply uniq_child; eassumption | exact H].
+Qed.
+
+Fixpoint sub_members (kvs : list (string * json)) (d : json) : bool :=
+  match kvs with
+  | [] => true
+  | (k, v) :: t => match lookup k (children d) with Some c => subdoc v c | None => false end && sub_members t d
+  end.
+
+Lemma subdoc_obj kvs d : subdoc (JObj kvs) d = jeq (JObj kvs) d || sub_members kvs d.
+Proof.
+  cbn [subdoc]. f_equal. induction kvs as [|[k v] t IH]; [reflexivity|].
+  cbn [sub_members]. rewrite <- IH. reflexivity.
+Qed.
+
+Lemma jeq_subdoc a b : jeq a b = true -> subdoc a b = true.
+Proof. intro H. destruct a; cbn [subdoc]; rewrite H; reflexivity. Qed.
+
+Lemma subdoc_refl d : uniq d = true -> subdoc d d = true.
+Proof. intro H. apply jeq_subdoc. apply jeq_refl. exact H. Qed.
+
+Lemma sub_members_iff kvs d :
+  sub_members kvs d = true <->
+  (forall k v, In (k, v) kvs -> exists c, lookup k (children d) = Some c /\ subdoc v c = true).
+Proof.
+  induction kvs as [|[k0 v0] t IH]; cbn [sub_members].
+  - split; [intros _ k v [] | reflexivity].
+  - rewrite andb_true_iff, IH. split.
+    + intros [H1 H2] k v [E|Hin].
+      * injection E as E1 E2. subst. destruct (lookup k (children d)) as [c|]; [|discriminate].
+        exists c. split; [reflexivity | exact H1].
+      * apply H2. exact Hin.
+    + intro H. split.
+      * destruct (H k0 v0 (or_introl eq_refl)) as [c [E1 E2]]. rewrite E1. exact E2.
+      * intros k v Hin. apply H. right. exact Hin.
+Qed.
+
+Lemma subdoc_members kvs d :
+  subdoc (JObj kvs) d = true ->
+  forall k v, In (k, v) kvs -> exists c, lookup k (children d) = Some c /\ subdoc v c = true.
+Proof.
+  rewrite subdoc_obj. intro H. apply orb_true_iff in H as [H|H].
+  - destruct d; try (cbn in H; discriminate). rewrite jeq_obj in H. apply andb_true_iff in H as [_ H].
+    intros k v Hin. destruct (jeq_members_elim _ _ H k v Hin) as [w [E1 E2]].
+    exists w. split; [exact E1 | apply jeq_subdoc; exact E2].
+  - apply sub_members_iff. exact H.
+Qed.
+
+Lemma subdoc_intro kvs d :
+  (forall k v, In (k, v) kvs -> exists c, lookup k (children d) = Some c /\ subdoc v c = true) ->
+  subdoc (JObj kvs) d = true.
+Proof. intro H. rewrite subdoc_obj. apply orb_true_iff. right. apply sub_members_iff. exact H. Qed.
+
+Lemma subdoc_aset k c' kvs d c :
+  subdoc (JObj kvs) d = true -> lookup k (children d) = Some c -> subdoc c' c = true ->
+  subdoc (JObj (aset k c' kvs)) d = true.
+Proof.
+  intros Hs Hl Hc. apply subdoc_intro. intros k' v' Hin. apply In_aset in Hin. destruct Hin as [E|Hin].
+  - injection E as E1 E2. subst. exists c. split; assumption.
+  - eapply subdoc_members; eassumption.
+Qed.
+
+Lemma mk_add p : forall part res d r1 res',
+  uniq d = true -> get p d = Some part -> subdoc res d = true ->
+  mkpath p res = Some r1 -> add_at p part r1 = Some res' -> subdoc res' d = true.
+Proof.
+  induction p as [|k r IH]; intros part res d r1 res' Hu Hg Hs Hm Ha.
+  - cbn in *. injection Hg as Hg. injection Hm as Hm. subst.
+    destruct r1; try discriminate. injection Ha as Ha. subst. apply subdoc_refl. exact Hu.
+  - cbn [mkpath] in Hm. destruct res; try discriminate.
+    cbn [get] in Hg. destruct (lookup k (children d)) as [c|] eqn:Ec; [|discriminate]. cbn [bind] in Hg.
+    set (sub := match lookup k kvs with Some c0 => c0 | None => JObj [] end) in Hm.
+    destruct (mkpath r sub) as [s'|] eqn:Es; [|discriminate]. cbn [bind] in Hm. injection Hm as Hm. subst r1.
+    assert (Hsub : subdoc sub c = true).
+    { unfold sub. destruct (lookup k kvs) as [c0|] eqn:E0; [|rewrite subdoc_obj; apply orb_true_r].
+      destruct (subdoc_members _ _ Hs k c0 (lookup_In _ _ _ E0)) as [c2 [E2 H2]].
+      rewrite Ec in E2. injection E2 as E2. subst c2. exact H2. }
+    assert (Huc : uniq c = true) by (eapply uniq_child; eassumption).
+    destruct r as [|k2 r2].
+    + cbn in Hg. injection Hg as Hg. subst part. cbn in Es. injection Es as Es. subst s'.
+      cbn in Ha. injection Ha as Ha. subst res'. rewrite aset_aset.
+      eapply subdoc_aset; [exact Hs | exact Ec | apply subdoc_refl; exact Huc].
+    + change (add_at (k :: k2 :: r2) part ?x) with (upd_child k (add_at (k2 :: r2) part) x) in Ha.
+      cbn [upd_child] in Ha. rewrite lookup_aset_same in Ha. cbn [bind] in Ha.
+      destruct (add_at (k2 :: r2) part s') as [c'|] eqn:Ea; [|discriminate]. cbn [bind] in Ha.
+      injection Ha as Ha. subst res'. rewrite aset_aset.
+      eapply subdoc_aset; [exact Hs | exact Ec |].
+      eapply (IH part sub c s' c'); eassumption.
+Qed.
+
+Lemma fold_none {A B} (g : option A -> B -> option A) (Hg : forall b, g None b = None) :
+  forall l, fold_left g l None = None.
+Proof. induction l as [|b l IH]; cbn; [reflexivity | rewrite Hg; exact IH]. Qed.
+
+Lemma ptr_fold d (Hu : uniq d = true) : forall ps res r,
+  (forall p, In p ps -> opath p d = true) -> subdoc res d = true ->
+  fold_left (filter_ptr d) ps (Some res) = Some r -> subdoc r d = true.
+Proof.
+  induction ps as [|p ps IH]; intros res r Hps Hs H; cbn in H.
+  - injection H as H. subst. exact Hs.
+  - assert (Hop : opath p d = true) by (apply Hps; left; reflexivity).
+    rewrite get_ptr_get in H by exact Hop. destruct (opath_get _ _ Hop) as [part Hg]. rewrite Hg in H. cbn [bind] in H.
+    destruct (mkpath p res) as [r1|] eqn:Em; cbn [bind] in H.
+    + destruct (add_at p part r1) as [res'|] eqn:Ea.
+      * eapply (IH res' r); [intros p' Hp'; apply Hps; right; exact Hp' | | exact H].
+        eapply mk_add; eassumption.
+      * rewrite fold_none in H by reflexivity. discriminate.
+    + rewrite fold_none in H by reflexivity. discriminate.
+Qed.
+
+Theorem filter_subdoc d : forall F r,
+  wf_filter d F = true -> apply_acl_filters V_fixed d F = Some r -> subdoc r d = true.
+Proof.
+  unfold wf_filter, apply_acl_filters. intros F r Hwf. apply andb_true_iff in Hwf as [Hu HF].
+  assert (Hgen : forall F res, forallb (fun s => let t := strip s in
+                    is_empty t || match parse_pointer t with Some pat => objects_only pat d | None => true end) F = true ->
+                 subdoc res d = true -> fold_left (filter_step V_fixed d) F (Some res) = Some r -> subdoc r d = true).
+  { clear F HF. induction F as [|s F IH]; intros res HF Hs H; cbn [fold_left] in H.
+    - injection H as H. subst. exact Hs.
+    - cbn [forallb] in HF. apply andb_true_iff in HF as [H1 HF]. cbn zeta in H1.
+      unfold filter_step at 2 in H. destruct (is_empty (strip s)) eqn:Ee.
+      + eapply IH; eassumption.
+      + cbn [orb bind] in H, H1. unfold resolve in H.
+        destruct (parse_pointer (strip s)) as [pat|] eqn:Ep; cbn [bind] in H.
+        * cbn [v_strseq V_fixed] in H. rewrite mapM_fixed in H. cbn [bind] in H.
+          destruct (fold_left (filter_ptr d) (resolve_parts false pat d) (Some res)) as [res'|] eqn:Ef.
+          -- eapply (IH res'); [exact HF | | exact H].
+             eapply ptr_fold; [exact Hu | | exact Hs | exact Ef].
+             intros p Hp. apply (sel_spec pat d p Hu H1) in Hp. apply Hp.
+          -- rewrite fold_none in H; [discriminate|]. intro b. unfold filter_step. destruct (is_empty (strip b)); reflexivity.
+        * rewrite fold_none in H; [discriminate|]. intro b. unfold filter_step. destruct (is_empty (strip b)); reflexivity. }
+  intro H. eapply Hgen; [exact HF | | exact H]. rewrite subdoc_obj. apply orb_true_r.
+Qed.
+
+(* ---------------------------------------------------------------- the boolean predicate on the model's output *)
+
+Definition frag_outcome (V : variant) (x : frag_in) : frag_out :=
+  let '(old, f, acl) := x in
+  let r := apply_fragment V old f acl in
+  (r, match r with Some r' => apply_fragment V r' f acl | None => None end).
+
+Lemma ojeq_refl_get p d : uniq d = true -> ojeq (get p d) (get p d) = true.
+Proof.
+  intro Hu. destruct (get p d) as [v|] eqn:E; [|reflexivity]. cbn. apply jeq_refl. eapply uniq_get; eassumption.
+Qed.
+
+Lemma ojeq_refl_leaf p d : uniq d = true -> ojeq (leafval (get p d)) (leafval (get p d)) = true.
+Proof.
+  intro Hu. destruct (get p d) as [v|] eqn:E; [|reflexivity]. cbn.
+  destruct (is_container v); [reflexivity|]. cbn. apply jeq_refl. eapply uniq_get; eassumption.
+Qed.
+
+Theorem fragment_holds acl pats old f :
+  parse_acl acl = Some pats -> wf_C13 pats old f = true ->
+  P_C13_frag (old, f, acl) (frag_outcome V_fixed (old, f, acl)) = true.
+Proof.
+  intros Hp Hwf. destruct (fragment_main acl pats old f Hp Hwf) as [r [E [Hin [Hout [Hid Hur]]]]].
+  destruct (wf_C13_parts _ _ _ Hwf) as [Huo [Huf _]].
+  unfold frag_outcome. rewrite E, Hid. unfold P_C13_frag, P_noerr, P_inside, P_outside, P_idem.
+  cbn [fst snd]. rewrite Hp. rewrite !andb_true_iff. repeat split.
+  - apply orb_true_r.
+  - apply orb_true_iff. right. unfold inside_ok. apply forallb_forall. intros p _. rewrite Hin.
+    unfold restrict. destruct (selected pats p); [apply ojeq_refl_get; exact Huf | reflexivity].
+  - apply orb_true_iff. right. unfold outside_ok. apply forallb_forall. intros p _. rewrite Hout.
+    unfold outside. destruct (inside pats p); [reflexivity | apply ojeq_refl_leaf; exact Huo].
+  - apply orb_true_iff. right. apply jeq_refl. exact Hur.
+Qed.
